@@ -248,13 +248,19 @@ def real_events(run: Run, count: int) -> list[dict[str, Any]]:
                     x = P[0]
                     cases = [(x, m, sg.r, sg.s), (x, m + b"!", sg.r, sg.s), (x, m, sg.r, (sg.s + 1) % ec.n), (x, m, sg.r, sg.s + ec.n if sg.s + ec.n < 2 ** (8 * ec.n_size) else ec.n),
                              (x, m, sg.r, ec.n), (x, m, sg.r, ec.n - 1), (x, m, ec.p, sg.s), (x, m, ec.p - 1, sg.s), (x, m, (sg.r + ec.p) if sg.r + ec.p < 2 ** (8 * ec.p_size) else ec.p + 1, sg.s),
-                             (x + ec.p if x + ec.p < 2 ** (8 * ec.p_size) else ec.p, m, sg.r, sg.s), (_off_curve_x(ec, rnd), m, sg.r, sg.s), (sg.r, m, x, sg.s), (x, m, 0, sg.s), (x, m, sg.r, 0)]
+                             (x + ec.p if x + ec.p < 2 ** (8 * ec.p_size) else ec.p, m, sg.r, sg.s), (_off_curve_x(ec, rnd), m, sg.r, sg.s), (sg.r, m, x, sg.s), (x, m, 0, sg.s), (x, m, sg.r, 0),
+                             # a key that is no field element at all: wider than the field's octets, and negative
+                             (2 ** (8 * ec.p_size), m, sg.r, sg.s), (2 ** (8 * ec.p_size) + x, m, sg.r, sg.s), (2 ** (8 * ec.p_size + 64) + x, m, sg.r, sg.s), (-1, m, sg.r, sg.s), (-x, m, sg.r, sg.s)]
                     for xx, mm, rr, ss in cases:
                         try:
                             o: Any = ssa.verify_(mm, xx, ssa.Sig(rr, ss, ec, check_validity=False), hf)
                         except Exception as e:  # noqa: BLE001
                             run.violation(f"ssa|real|verify_|raised|{type(e).__name__}|{name}", f"verify_ raised {type(e).__name__}: {e} on {name} (x={xx:#x}, r={rr:#x}, s={ss:#x})",
                                           {"op": "verify_", "curve": name})
+                            continue
+                        if xx < 0:
+                            if o is not False:
+                                run.violation(f"ssa|real|verify_|negative key accepted|{name}", f"verify_ answered {o} for the negative key {xx} on {name}", {"op": "verify_", "curve": name})
                             continue
                         evs.append({"op": "verify", "tag": tag, "c": c, "hf": hname, "x": nat(xx), "m": mm.hex(), "r": nat(rr), "s": nat(ss), "out": o})
                     if i % 5 == 1:
@@ -280,8 +286,14 @@ def real_events(run: Run, count: int) -> list[dict[str, Any]]:
                     for j in range(min(size, 12)):
                         d = rnd.randrange(1, ec.n)
                         m = rnd.randbytes(rnd.choice([0, 32, 50]))
-                        sg = ssa.sign_(m, d, bytes(32), ec, hf)
+                        try:
+                            sg = ssa.sign_(m, d, bytes(32), ec, hf)
+                        except BTClibException as e:
+                            run.violation(f"ssa|real|sign_|refused|{name}", f"sign_ refused a valid key/message on {name}: {e}", {"curve": name})
+                            continue
                         base.append({"x": mult(d, ec=ec)[0], "m": m, "r": sg.r, "s": sg.s})
+                    if not base:
+                        continue
                     members = [dict(base[j % len(base)]) for j in range(size)]   # repeats when size > 12
                     variants: list[tuple[str, list[dict[str, Any]]]] = [("all valid", members)]
                     for pos in sorted({0, size // 2, size - 1}):
@@ -291,6 +303,16 @@ def real_events(run: Run, count: int) -> list[dict[str, Any]]:
                         mm = [dict(q) for q in members]
                         mm[pos]["m"] = mm[pos]["m"] + b"x"
                         variants.append((f"bad m at {pos}", mm))
+                    if size >= 2:
+                        # a member repeated under another message (the same key, the same signature): alone it fails, so must the batch
+                        for (a, b) in ((0, size - 1), (0, 1), (size - 2, size - 1)):
+                            mm = [dict(q) for q in members]
+                            mm[b] = dict(mm[a])
+                            mm[b]["m"] = mm[a]["m"] + b"again"
+                            variants.append((f"member {a} repeated at {b} under another message", mm))
+                            mm = [dict(q) for q in members]
+                            mm[b] = dict(mm[a])
+                            variants.append((f"member {a} repeated at {b}", mm))
                     if size >= 3:
                         for (a, b) in ((1, 2), (0, size - 1), (size - 2, size - 1)):
                             mm = [dict(q) for q in members]
